@@ -419,15 +419,23 @@ theorem copyTo_value (dstIsB : Bool) (fs : Form) (src dst : Val) (hf : isSeqForm
 
 /-- Reset through a pointer truncates to length zero. -/
 theorem reset_truncates (nl : Bool) (es : List Val) (c : Nat) :
-    (match stringsReset .ptr (.slice nl es c) with | .ok v => (seqElems v).length | _ => 1) = 0 := rfl
+    (match stringsReset LibCfg.fixed .ptr (.slice nl es c) with | .ok v => (seqElems v).length | _ => 1) = 0 := rfl
 
 /-- … for every value (the driver's guard for `.ptr`: `(seqElems x).isEmpty`). -/
 theorem reset_correct (v : Val) :
-    (match stringsReset .ptr v with | .ok x => (seqElems x).isEmpty | _ => false) = true := by
+    (match stringsReset LibCfg.fixed .ptr v with | .ok x => (seqElems x).isEmpty | _ => false) = true := by
   cases v <;> rfl
 
 theorem reset_value (v : Val) :
-    (match stringsReset .val v with | .mustPointer => true | _ => false) = true := rfl
+    (match stringsReset LibCfg.fixed .val v with | .mustPointer => true | _ => false) = true := rfl
+
+/-- Reset never panics, a typed-nil pointer included (repaired). -/
+theorem reset_no_panic (f : Form) (v : Val) :
+    (match stringsReset LibCfg.fixed f v with | .panic => false | _ => true) = true := by
+  cases f <;> (try rfl)
+  cases v <;> rfl
+theorem original_reset_panics_nil_ptr (v : Val) :
+    (match stringsReset LibCfg.original .nilPtr v with | .panic => true | _ => false) = true := rfl
 
 section NonVacuity
 def seg (t : String) : Seg := { text := strBytes t }
